@@ -543,6 +543,8 @@ class SpecGen:
         else:
             nargs = r.randint(0 if not root else 1, 3)
             node["args"] = {"abc"[i]: self.pick_any() for i in range(nargs)}
+            if cfg.get("posonly_params") and nargs and r.random() < 0.2:
+                node["posonly"] = r.randint(1, nargs)  # def body(a=..., /, b=...): leading parameters are positional-only
         if cfg.get("odd_returns") and not selector and r.random() < 0.25:
             node["returns"] = "uncopyable"
         elif cfg.get("returns_node") and not selector and r.random() < 0.25:
